@@ -131,6 +131,8 @@ def run(ctx):
         engine.slice_engine(ctx, ctx.rng(81), ctx.size(250, 3000), only="C01/"),
         engine.slice_sea(ctx, ctx.rng(83), ctx.size(400, 5000), only="C01/"),
         slice_affine(ctx, ctx.rng(85), ctx.size(150, 2000)),
+        # an objective with NaN holes (NaN is a legal value, ordered as worst): the property does not depend on it
+        runs.nan_monitor_batch(ctx, PID, ctx.size(30, 300), salt=57),
     ]
 
 
